@@ -399,6 +399,6 @@ State == [bat |-> bat, jobs |-> jobs, work |-> work, cq |-> cq, wk |-> wk, rank 
           ws |-> ws, verd |-> verd, ans |-> ans, dsp |-> dsp, cnt |-> cnt,
           abs |-> [opts |-> abs.opts, fails |-> abs.fails, cancel |-> abs.cancel,
                    hardx |-> abs.hardx, win |-> abs.win, latest |-> abs.latest, live |-> abs.live,
-                   hold |-> abs.hold, stopped |-> abs.stopped]]
+                   hold |-> abs.hold, stopped |-> abs.stopped, rec |-> abs.rec, done |-> abs.done]]
 View == <<bat, jobs, work, cq, wk, rank, ws, verd, ans, dsp, cnt, abs>>
 =============================================================================
